@@ -32,7 +32,7 @@ pub fn check() -> Check {
                Oracle (b), metamorphic across builds: the session with the keys of the disabled facilities deleted, run on the full build, yields byte-identical sink output, handler log and editor states as the original session on the reduced build (with help disabled: only for sessions without help-shaped lines and without Tab on a prefix of `help`). \
                Oracle (c), differential at byte level: sessions that mix raw CR / LF / ESC / `[` bytes around Tab and Up/Down; whenever the keys of a build's disabled facilities happen to be no-ops on the full build (nothing to complete, nothing to recall), that build must produce exactly the full build's trace for the same bytes. \
                (d) programs: generated declarations that use `help`, `-h` and `--help` as ordinary command and option names, compiled with the repository's macros WITHOUT the help feature; lines (with those words also where they are not declared) must parse exactly as the declaration interpreter of C09 says. \
-               Non-trivial = the session uses at least one key or line of a facility that is disabled in at least one compared build (for (d): the line contains help / -h / --help); distinct by (configuration, ops).",
+               Non-trivial = the session uses at least one key or line of a facility that is disabled in at least one compared build (for (d): the line contains help / -h / --help); distinct by (configuration, ops). (d) also presses Tab on the generated declarations in the build without help, judged by C11's completion model (words that are a prefix of `help` left out).",
         assumptions: &[
             "completion of prefixes of `help` when the help feature is off is left open (such sessions are not compared across the help axis)",
             "the harness's own trait impls are cfg-gated exactly like the library's traits, so the runner compiles in all 8 configurations on the baseline tree; a build failure for any subset is reported as a violation",
